@@ -135,6 +135,11 @@ pub struct Inv {
     /// depend on it
     #[serde(default)]
     pub env: Vec<(String, String)>,
+    /// debug options of the front-end: bit 0 `-a`/`--ast`, bit 1 `-p`/`--pretty-doc`, bit 2 long
+    /// spelling. They print extra text on stdout (which no property speaks about: with them
+    /// stdout is not judged) and must change nothing else: tree, exit status, what is written.
+    #[serde(default)]
+    pub debug: u8,
 }
 
 impl Inv {
@@ -165,6 +170,12 @@ impl Inv {
             }
         } else {
             pre.extend(style);
+        }
+        if self.debug & 1 != 0 {
+            pre.push(if self.debug & 4 != 0 { "--ast".into() } else { "-a".into() });
+        }
+        if self.debug & 2 != 0 {
+            pre.push(if self.debug & 4 != 0 { "--pretty-doc".into() } else { "-p".into() });
         }
         match self.verbosity {
             1 => pre.push("-q".into()),
